@@ -182,6 +182,9 @@ pub fn drive(header: &str, run_fn: &str) {
         let d = if r.chance(1, 3) { 3 } else { 2 };
         let n = match stream {
             2 => r.range(100, if thorough { 3000 } else { 600 }) as usize,
+            // the rotation matrix is schedule independent (hence validated, hence the case is
+            // compared with the model) when the point count is a power of two: exact centroid
+            0 | 3 if r.chance(3, 5) => *r.pick(&[2usize, 4, 8, 8, 16, 16, 32, 32, 64]),
             _ => match r.below(12) {
                 0 => 1,
                 1 => 2,
